@@ -21,7 +21,7 @@ def main(tier, replay=None):
         designlevel.codec_design(rep, "U_small depth1 enc", depth=1, caps=(1, 5), leafset="small",
                                  evo=0, modes=("enc",), invariants=("InBounds", "EncRefines", "ChunkShape"))
     else:
-        designlevel.codec_design(rep, "U_small depth2 enc", depth=2, caps=(1, 3, 5), leafset="small",
+        designlevel.codec_design(rep, "U_small depth2 enc (leaf uint3)", depth=2, caps=(1, 5), leafset="tiny",
                                  evo=0, modes=("enc",), invariants=("InBounds", "EncRefines", "ChunkShape"))
         designlevel.codec_design(rep, "U_small depth1 wide enc", depth=1, caps=(1, 2, 6), leafset="wide",
                                  evo=0, modes=("enc",), invariants=("InBounds", "EncRefines", "ChunkShape"))
